@@ -86,6 +86,8 @@ def classify(seg, idx, reason):
     ev = json.loads(seg[idx - 1])
     s = ev.get("s", {})
     if reason == "panic":
+        if s.get("a") == "established" and s.get("mismatch"):
+            return ["dial-address-two-peer-ids-panic"]
         return ["panic-%s" % s.get("a", "?")]
     if reason == "dial accepted but nothing is being attempted" and s.get("a") in ("hdial", "hdial_addr"):
         return ["hdial-refused-silently"]
@@ -98,18 +100,21 @@ def classify(seg, idx, reason):
     return [reason.replace(" ", "-")]
 
 
-def pipeline(ctx, pid, nrand_quick=3000, nrand_thorough=60000):
+def pipeline(ctx, pid, nrand_quick=1500, nrand_thorough=60000):
     mc = mc_runs(ctx, pid)
     behs, gstats = generate(ctx)
     write_jsonl(ctx.path("behs.jsonl"), behs)
     build_s = cargo_build(ctx, ["connmgr"])
     nrand, rlen = (nrand_quick, 60) if ctx.quick() else (nrand_thorough, 80)
     summ, _ = harness(ctx, "connmgr", ["--behaviours", ctx.path("behs.jsonl"), "--random", nrand, "--len", rlen,
+                                       "--shapes", 2 if ctx.quick() else 12,
                                        "--seed", ctx.seed, "--out", ctx.path("trace.ndjson")], timeout=3000)
     log("HARNESS: %s (build %ss)" % (summ, build_s))
     lines = read_lines(ctx.path("trace.ndjson"))
     nseg, nev, rejects = validate_all(ctx, "ConnMgrTrace.tla", "ConnMgrTrace.cfg", lines, mode="prop")
-    _, _, drift = validate_segments(ctx, "ConnMgrTrace.tla", "ConnMgrTrace.cfg", lines, mode="impl", max_rejects=3, tag="d")
+    # drift check against the implementation-shaped model (address shapes are not modelled there)
+    impl_lines = [ln for seg in split_segments(lines, lambda ln: '"e":"reset"' in ln) if '"src":"shapes"' not in seg[0] for ln in seg]
+    _, _, drift = validate_segments(ctx, "ConnMgrTrace.tla", "ConnMgrTrace.cfg", impl_lines, mode="impl", max_rejects=3, tag="d")
     for seg, idx in drift:
         log("NOTE drift: real TransportManager deviates from ConnMgrMC at %s" % seg[idx - 1][:400])
     return mc, gstats, summ, lines, nseg, nev, rejects, drift
@@ -154,3 +159,75 @@ def evidence(mc, gstats, summ, lines, nseg, nev, drift):
         "impl_divergences": len(drift),
         "exhaustive": False,
     }
+
+
+def selftest(ctx, pid):
+    """(a) binding: corrupt recorded steps of a good trace, the monitor must flag exactly those;
+    (b) negative models: one guard of ConnMgrMC removed must make TLC report a violated invariant."""
+    import shutil, random
+    ok = True
+    cargo_build(ctx, ["connmgr"])
+    harness(ctx, "connmgr", ["--random", 40, "--len", 60, "--seed", ctx.seed, "--out", ctx.path("t.ndjson")])
+    lines = read_lines(ctx.path("t.ndjson"))
+    _, _, base = validate_all(ctx, "ConnMgrTrace.tla", "ConnMgrTrace.cfg", lines)
+    base_keys = {(id(r[0]), r[1]) for r in base}
+    rnd = random.Random(ctx.seed)
+
+    def mutate(kind):
+        idxs = list(range(len(lines)))
+        rnd.shuffle(idxs)
+        for i in idxs:
+            d = json.loads(lines[i])
+            if d.get("e") != "step":
+                continue
+            if kind == "drop-failure-event" and any(e["k"] in ("dial_failure", "open_failure") for e in d["events"]):
+                d["events"] = [e for e in d["events"] if e["k"] not in ("dial_failure", "open_failure")]
+            elif kind == "duplicate-failure-event" and any(e["k"] == "dial_failure" for e in d["events"]):
+                d["events"] = d["events"] + [e for e in d["events"] if e["k"] == "dial_failure"]
+            elif kind == "wrong-address-in-failure" and any(e["k"] == "dial_failure" for e in d["events"]):
+                for e in d["events"]:
+                    if e["k"] == "dial_failure":
+                        e["addrs"] = ["zz"]
+            elif kind == "reject-below-limit" and d["s"]["a"] == "in_est" and any(c["c"] == "accept" for c in d["calls"]) and d["view"][d["s"]["p"]]["sec"] == -1:
+                d["calls"] = [dict(c, c="reject") if c["c"] == "accept" else c for c in d["calls"]]
+            else:
+                continue
+            return i, lines[:i] + [json.dumps(d, separators=(",", ":"))] + lines[i + 1:]
+        return None, None
+
+    for kind in ["drop-failure-event", "duplicate-failure-event", "wrong-address-in-failure", "reject-below-limit"]:
+        i, mut = mutate(kind)
+        if mut is None:
+            log("selftest %s: no candidate line" % kind)
+            continue
+        _, _, rej = validate_all(ctx, "ConnMgrTrace.tla", "ConnMgrTrace.cfg", mut, tag="m")
+        extra = [r for r in rej if r.reason and r.reason != "unconsumed"]
+        caught = len(extra) > len(base)
+        log("selftest binding %-26s line %d -> %s" % (kind, i + 1, "flagged (%s)" % sorted({r.reason for r in extra} - {r.reason for r in base} or {r.reason for r in extra}) if caught else "NOT FLAGGED"))
+        ok &= caught
+    # negative models
+    negs = [
+        ("limit-off-by-one", "Full(s, max) == max # NoLimit /\\ Cardinality(s) >= max", "Full(s, max) == max # NoLimit /\\ Cardinality(s) > max"),
+        ("forget-pending-remove-on-open-failure", "     /\\ pend' = pend \\ {c}\n     /\\ tx' = [tx EXCEPT ![c] = \"failed\"]\n     /\\ UNCHANGED <<cpeer, cdir, caddrs, limIn, limOut, next, known, kf>>\n     /\\ Handle([a |-> \"open_fail\"", "     /\\ pend' = pend\n     /\\ tx' = [tx EXCEPT ![c] = \"failed\"]\n     /\\ UNCHANGED <<cpeer, cdir, caddrs, limIn, limOut, next, known, kf>>\n     /\\ Handle([a |-> \"open_fail\""),
+        ("third-connection-accepted", "  ELSE IF s.k = \"conn\" THEN [acc |-> FALSE, st |-> s, cancel |-> None]", "  ELSE IF s.k = \"conn\" THEN [acc |-> TRUE, st |-> s, cancel |-> None]"),
+        ("dial-failure-not-reported", "             /\\ Handle(stim, <<>>, <<[k |-> \"dial_failure\", cid |-> c, addrs |-> caddrs[c]]>>, \"none\")", "             /\\ Handle(stim, <<>>, <<>>, \"none\")"),
+    ]
+    src = open(os.path.join(SPEC, "ConnMgrMC.tla")).read()
+    for name, a, b in negs:
+        a = a.encode().decode("unicode_escape")
+        b = b.encode().decode("unicode_escape")
+        if a not in src:
+            log("selftest negative %s: pattern not found (spec changed?)" % name)
+            ok = False
+            continue
+        d = ctx.path("neg_" + name)
+        os.makedirs(d, exist_ok=True)
+        shutil.copy(os.path.join(SPEC, "ConnMgr.tla"), d)
+        open(os.path.join(d, "ConnMgrMC.tla"), "w").write(src.replace(a, b))
+        cfg = write_cfg(ctx, "neg_%s.cfg" % name, dict(BASE, Limits="<- LimNone" if name.startswith("third") else "<- LimSmall", MaxCid=3), ["SPECIFICATION Spec"] + MC_INV)
+        r = tlc_mc(ctx, os.path.join(d, "ConnMgrMC.tla"), cfg, workers=8, expect_violation=True, timeout=900)
+        viol = "is violated" in r["out"]
+        log("selftest negative %-40s -> %s" % (name, "violation found" if viol else "NO VIOLATION"))
+        ok &= viol
+    log("SELFTEST %s" % ("ok" if ok else "FAILED"))
+    return 0 if ok else 2
